@@ -186,7 +186,7 @@ func (u *Unit) atomicOp(st *State, fn *types.Func, recv *Val, args []Val) (Val, 
 	hs := sArr(SInt, sort)
 	cur := func() Term { return tSel(u.heapTerm(st, heap, hs), recv.S) }
 	set := func(v Term) {
-		u.logWrite(heap, recv.S)
+		u.logWrite(st, heap, recv.S)
 		u.setHeap(st, heap, hs, tStore(u.heapTerm(st, heap, hs), recv.S, v))
 	}
 	u.atomicInterference(st, heap, hs, recv)
@@ -324,6 +324,10 @@ func (u *Unit) lockOp(st *State, call *ast.CallExpr, op string) {
 	self := scalar(ls.ref, SInt, selfT)
 	switch op {
 	case "lock", "rlock":
+		heapBefore := make(map[string]Term, len(st.heap))
+		for hn, t := range st.heap {
+			heapBefore[hn] = t
+		}
 		// other goroutines may have changed everything the lock guards
 		s := structOf(ls.owner)
 		for _, g := range ls.spec.Guards {
@@ -359,12 +363,26 @@ func (u *Unit) lockOp(st *State, call *ast.CallExpr, op string) {
 			st.held[ls.key] = false // read lock
 			st.held[ls.key+"#r"] = true
 		}
-		// linearisation point for old(): the first acquisition
-		if _, done := st.ghost["$lin"]; !done {
-			st.ghost["$lin"] = boolVal("true")
-			snap := st.fork()
-			snap.old = nil
-			st.old = snap
+		// linearisation point for old(): the first acquisition of each lock. What this lock guards takes its
+		// old() value from the state right after this acquisition; everything else keeps its earlier snapshot.
+		if _, done := st.ghost["$lin:"+ls.key]; !done {
+			st.ghost["$lin:"+ls.key] = boolVal("true")
+			if _, any := st.ghost["$lin"]; !any {
+				st.ghost["$lin"] = boolVal("true")
+				snap := st.fork()
+				snap.old = nil
+				st.old = snap
+			} else {
+				snap := st.old.fork()
+				snap.old = nil
+				for hn, t := range st.heap {
+					if heapBefore[hn] != t {
+						snap.heap[hn] = t
+					}
+				}
+				snap.pc = st.pc[:len(st.pc):len(st.pc)]
+				st.old = snap
+			}
 		}
 	case "unlock", "runlock":
 		if ls.spec.Inv != nil && op == "unlock" {
